@@ -275,7 +275,7 @@ fn single_aborts(exe: &std::path::Path, dir: &str, case: &JunkCase) -> Option<bo
 /// The check process died abnormally: re-run it with breadcrumbs, find the case that kills a fresh
 /// process, minimise it and report it as a violation. Returns the exit code.
 pub fn isolate_abort(exe: &std::path::Path, tier: Tier, seed: u64) -> i32 {
-    let dir = format!("{VERIF_DIR}/.build/tmp/crumbs-{}", std::process::id());
+    let dir = format!("{}/.build/tmp/crumbs-{}", verif_dir(), std::process::id());
     let _ = std::fs::remove_dir_all(&dir);
     if std::fs::create_dir_all(&dir).is_err() {
         eprintln!("INCONCLUSIVE property=C01 : cannot create {dir}");
